@@ -4,6 +4,7 @@
 # Spec functions are formulated with division / modulo on the big-endian integer of the field's bytes, i.e.
 # independently of the shift-and-xor loops of the implementation.
 import importlib
+import itertools
 
 from pyvc import values as V
 from pyvc.unit import Unit, U, Size, Bytes, Buf, MBuf, register
@@ -588,6 +589,70 @@ class Blobs(Unit):
         yield "C10", "decode-returns-the-blob", V.bytes_eq(dec["blob"], a.value)
 
 
+class MixedBlobs(Unit):
+    """one layout with byte, word and dword blobs and a bit field, in every order of the fields: each blob is its own
+    slice of the buffer whatever was processed before it in the same call (field order, C10)"""
+
+    name = "converter/blobs:mixed-kinds"
+    properties = ("C10",)
+    LAYOUT = {"sn": ("b", 2, 3), "fw": ("w", 6, 2), "sectors": ("dw", 12, 1), "flag": [0x80, 0], "tail": ("b", 17, 2)}
+    SIZES = {"sn": 3, "fw": 4, "sectors": 4, "tail": 2}
+
+    def functions(self):
+        return [conv().encode_dict, conv().decode_bits]
+
+    def cases(self, tier):
+        names = list(self.LAYOUT)
+        orders = [names, names[::-1], ["fw", "sn", "flag", "sectors", "tail"], ["sectors", "tail", "fw", "flag", "sn"], ["fw", "flag", "tail", "sectors", "sn"]]
+        if tier != "quick":
+            orders = [list(p) for p in itertools.permutations(names)]
+        return [{"order": o} for o in orders]
+
+    def case_id(self, case):
+        return "order=" + "+".join(case["order"])
+
+    def inputs(self, case):
+        d = {"buf": Bytes(20), "flag": U(1)}
+        d.update({k: Bytes(n) for k, n in self.SIZES.items()})
+        return d
+
+    def run(self, X, case, a):
+        lay = {k: self.LAYOUT[k] for k in case["order"]}
+        old = list(a.buf)
+        # (the bit field is XORed into the buffer: it is encoded into a cleared bit, as the library's callers do)
+        a.buf[0] = a.buf[0] & 0x7F
+        self.old = [old[0] & 0x7F] + old[1:]
+        vals = {k: (a[k] if k != "flag" else a.flag) for k in case["order"]}
+        X.call(conv().encode_dict, vals, lay, a.buf)
+        dec = {}
+        X.call(conv().decode_bits, a.buf, lay, dec)
+        return dec
+
+    def ensures(self, case, a, out, X):
+        if out.kind != "return":
+            yield "C10", "returns (raised %s)" % type(out.exc).__name__, False
+            return
+        dec = out.value
+        new, old = list(a.buf), self.old
+        yield "C10", "length-unchanged", len(new) == 20
+        if len(new) != 20:
+            return
+        exp = list(old)
+        for k, n in self.SIZES.items():
+            o = self.LAYOUT[k][1]
+            for i in range(n):
+                exp[o + i] = a[k][i]
+        exp[0] = exp[0] | (a.flag * 0x80)
+        for i in range(20):
+            yield "C10", "byte%d" % i, new[i] == exp[i]
+        for k, n in self.SIZES.items():
+            got = dec.get(k)
+            ok = V.is_buffer(got) or isinstance(got, (bytes, bytearray, V.SBytes))
+            yield "C10", "decode-%s-is-its-own-slice" % k, ok and len(got) == n and V.bytes_eq(got, a[k])
+        yield "C10", "decode-flag", dec.get("flag") == a.flag
+        yield "C10", "decoded-in-the-order-of-the-layout", list(dec) == list(case["order"])
+
+
 class LayoutOrder(Unit):
     """for every layout table of the repository: the encoded bytes do not depend on the order in which the
     fields are supplied, unknown keys are ignored, and decoding returns every supplied value (non-overlapping
@@ -748,5 +813,6 @@ register(EncodeField())
 register(DecodeField())
 register(DecodeShort())
 register(Blobs())
+register(MixedBlobs())
 register(LayoutOrder())
 register(LayoutChanges())
